@@ -2,6 +2,7 @@
 import inspect
 from symx.api import H
 from spec import registry as REG
+from harness import c02 as C2
 from harness import c05 as C5
 from harness import c08 as C8
 from harness import c04 as C4
@@ -398,6 +399,11 @@ HARNESSES = [
       decoy='all', expect=('ok',),
       desc='DW_LNCT_* content type codes of DWARF 5 line-program headers are reported under their standard names, also after another header whose entry formats '
            'have the same forms with other content types (decoy runs; harness shared with C05)'),
+    H('h17_7_compression_codes_in_headers', C2.h_compressed,
+      lambda tier: [c for c in C2.HARNESSES[1].instances(tier) if c['plain'] == 2 and c['pad'] == 0],
+      expect=('ok', 'rejected', 'zlib-error'),
+      desc='the compression code of an Elf32/64_Chdr of fully symbolic bytes, in both classes and byte orders, is acted upon under its standard name: a '
+           'section is inflated exactly when ch_type is ELFCOMPRESS_ZLIB (harness shared with C02)'),
     H('h17_2_tables', h_tables, lambda tier: [dict(table=i) for i in range(0, 90)], expect=('ok',),
       desc='every exported (name, value) pair whose name a registry defines: value equals a registry value (ground obligations)'),
 ]
